@@ -496,4 +496,230 @@ Section StrategyProofs.
     fold xp. rewrite map_map. fold (train_X sc zs wl nw). fold X.
     reflexivity.
   Qed.
+
+  (* ------------------------------------------------------------------------------------------ *)
+  (* recursive *)
+
+  Definition dflt : xrow * Z := (RTab [], 0).
+
+  (* loop invariant of the recursive prediction loop: before step i the buffer holds the window
+     history H (last window followed by the i predictions made so far) and then only zeros that are
+     never read; the result is described without buffer or zeros *)
+  Lemma rec_steps_spec m sc wl xb : forall (k : nat) i H, 0 <= i -> zlen H = wl + i ->
+    let L := rec_steps M pred1 m sc wl xb (zrange i (i + Z.of_nat k) 1) (H ++ zeros (Z.of_nat k)) in
+    length L = k /\
+    forall j : nat, (j < k)%nat ->
+      nth j L dflt =
+        let x := enc sc (map (fun b => zslice b (i + Z.of_nat j) (wl + i + Z.of_nat j))
+                             ((H ++ map snd L) :: xb)) in
+        (x, pred1 m x).
+  Proof.
+    induction k as [|k IH]; intros i H Hi HH L.
+    - subst L. rewrite Z.add_0_r, zrange_nil by lia. split; [reflexivity|]. intros j Hj. lia.
+    - subst L. rewrite zrange_cons by lia. cbn [rec_steps]. unfold rec_lo, rec_hi, rec_fb.
+      set (x0 := enc sc (map (fun b => zslice b i (wl + i)) ((H ++ zeros (Z.of_nat (S k))) :: xb))).
+      set (p0 := pred1 m x0).
+      assert (Eupd : zupd (H ++ zeros (Z.of_nat (S k))) (wl + i) p0 = (H ++ [p0]) ++ zeros (Z.of_nat k)).
+      { rewrite <- HH. rewrite zupd_app_zeros by lia. do 2 f_equal. lia. }
+      rewrite Eupd.
+      replace (i + Z.of_nat (S k)) with ((i + 1) + Z.of_nat k) by lia.
+      assert (HH' : zlen (H ++ [p0]) = wl + (i + 1)) by (rewrite zlen_app; unfold zlen at 2; cbn; lia).
+      specialize (IH (i + 1) (H ++ [p0]) ltac:(lia) HH'). cbv zeta in IH.
+      set (L' := rec_steps M pred1 m sc wl xb (zrange (i + 1) (i + 1 + Z.of_nat k) 1)
+                   ((H ++ [p0]) ++ zeros (Z.of_nat k))) in *.
+      destruct IH as [IHlen IHnth]. split; [cbn [length]; lia|].
+      intros j Hj. destruct j as [|j].
+      + cbn [nth]. cbv zeta. rewrite !Z.add_0_r.
+        assert (Ex : x0 = enc sc (map (fun b => zslice b i (wl + i))
+                                   ((H ++ map snd ((x0, p0) :: L')) :: xb))).
+        { unfold x0. cbn [map]. rewrite !(zslice_app_l H) by lia. reflexivity. }
+        rewrite <- Ex. reflexivity.
+      + cbn [nth]. rewrite IHnth by lia. cbv zeta. cbn [map snd].
+        replace ((H ++ [p0]) ++ map snd L') with (H ++ p0 :: map snd L')
+          by (rewrite <- app_assoc; reflexivity).
+        replace (i + 1 + Z.of_nat j) with (i + Z.of_nat (S j)) by lia.
+        replace (wl + (i + 1) + Z.of_nat j) with (wl + i + Z.of_nat (S j)) by lia.
+        reflexivity.
+  Qed.
+
+  Lemma concat_map_singleton {A B} (f : A -> B) l : concat (map (fun r => [f r]) l) = map f l.
+  Proof. induction l as [|a t IH]; [reflexivity|]. cbn. rewrite IH. reflexivity. Qed.
+
+  (* the window at the end of a series extended by more data *)
+  Lemma zslice_tail_ext (y P : list Z) wl j : 0 <= wl <= zlen y -> 0 <= j ->
+    zslice (zslice y (zlen y - wl) (zlen y) ++ P) j (wl + j) =
+    zslice (y ++ P) (zlen y - wl + j) (zlen y + j).
+  Proof.
+    intros Hw Hj. rewrite zslice_full by lia.
+    rewrite <- (firstn_skipn (Z.to_nat (zlen y - wl)) y) at 3.
+    rewrite <- app_assoc.
+    assert (HL : zlen (firstn (Z.to_nat (zlen y - wl)) y) = zlen y - wl).
+    { unfold zlen. rewrite firstn_length. unfold zlen in Hw. lia. }
+    rewrite zslice_app_skip by lia. rewrite HL. f_equal; lia.
+  Qed.
+
+  Lemma wf_fh_one : wf_fh [1].
+  Proof. unfold wf_fh. cbn. split; [congruence|]. split; [exact I|lia]. Qed.
+
+  (* recursive strategy, complete data flow: one regressor fitted on ALL n - wl windows with the
+     next observation as target; step i+1 (i = 0 .. max fh - 1) is predicted from the last wl values
+     of the series extended by the predictions made so far (exogenous columns: extended by the rows
+     of the X passed to predict); the forecast for step h is the output of call h *)
+  Lemma recursive_flow sc zs wl fh xfut : wf_zs zs -> 1 <= wl -> wf_fh fh ->
+    let y := hd [] zs in
+    let n := zlen y in
+    let nw := n - wl in
+    let X := train_X sc zs wl nw in
+    let t := train_t y wl nw 1 in
+    let m := fit1 X t in
+    if nw <=? 0 then recursive_run M fit1 pred1 sc zs wl fh xfut = Err else
+    exists steps,
+      recursive_run M fit1 pred1 sc zs wl fh xfut =
+        Ok (mkRun [Fit1 X t] (map (fun s => (0, fst s)) steps)
+                  (map (fun h => snd (nth (Z.to_nat (h - 1)) steps dflt)) fh)) /\
+      zlen steps = zlast fh /\
+      forall i, 0 <= i < zlast fh ->
+        nth (Z.to_nat i) steps dflt =
+          let ext := (y ++ map snd steps) :: map (fun p => fst p ++ snd p) (combine (tl zs) xfut) in
+          let x := enc sc (map (fun s => zslice s (n - wl + i) (n + i)) ext) in
+          (x, pred1 m x).
+  Proof.
+    intros Hz Hwl Hfh y n nw X t m. unfold recursive_run. cbv zeta.
+    rewrite (swt_fh_closed zs wl [1] Hz Hwl wf_fh_one). cbv zeta. fold y. fold n.
+    replace (n_windows n wl [1]) with nw by (unfold n_windows, zlast, nw; cbn; lia).
+    destruct (nw <=? 0) eqn:E; [reflexivity|].
+    rewrite map_map. fold (train_X sc zs wl nw). fold X.
+    rewrite concat_map_singleton. fold (train_t y wl nw 1). fold t. fold m.
+    pose proof (wf_fh_last fh Hfh) as Hfm.
+    set (xb := map (fun p => last_window n wl (fst p) ++ snd p) (combine (tl zs) xfut)).
+    set (Hw := last_window n wl y).
+    assert (HHw : zlen Hw = wl + 0).
+    { unfold Hw. rewrite last_window_eq. rewrite zlen_zslice; unfold n, nw in *; lia. }
+    pose proof (rec_steps_spec m sc wl xb (Z.to_nat (zlast fh)) 0 Hw ltac:(lia) HHw) as Hs.
+    cbv zeta in Hs. rewrite Z2Nat.id in Hs by lia. rewrite Z.add_0_l in Hs.
+    set (steps := rec_steps M pred1 m sc wl xb (zrange 0 (zlast fh) 1) (Hw ++ zeros (zlast fh))) in *.
+    destruct Hs as [Hlen Hnth].
+    exists steps. split; [|split].
+    - apply f_equal. f_equal. unfold fh_indexer. rewrite map_map. apply map_ext_in. intros h Hh.
+      pose proof (wf_fh_bounds fh h Hfh Hh) as Hb. unfold znth.
+      rewrite (nth_indep _ 0 (snd dflt)) by (rewrite map_length; lia).
+      apply map_nth.
+    - unfold zlen. lia.
+    - intros i Hi. rewrite Hnth by lia. cbv zeta. rewrite Z2Nat.id by lia.
+      assert (Ein : map (fun b => zslice b (0 + i) (wl + 0 + i)) ((Hw ++ map snd steps) :: xb) =
+                    map (fun s => zslice s (n - wl + i) (n + i))
+                        ((y ++ map snd steps) :: map (fun p => fst p ++ snd p) (combine (tl zs) xfut))).
+      { cbn [map]. f_equal.
+        - unfold Hw. rewrite last_window_eq. replace (wl + 0 + i) with (wl + (0 + i)) by lia.
+          unfold n. rewrite zslice_tail_ext; [f_equal; lia| |lia]. fold n. unfold nw in E. lia.
+        - unfold xb. rewrite !map_map. apply map_ext_in. intros [xv xf] Hp. cbn [fst snd].
+          assert (Hxv : zlen xv = n).
+          { apply in_combine_l in Hp. destruct Hz as [Hne Hall]. unfold n, y.
+            apply Hall. destruct zs as [|z0 zr]; [congruence|]. right. exact Hp. }
+          rewrite last_window_eq. replace (wl + 0 + i) with (wl + (0 + i)) by lia.
+          rewrite <- Hxv. rewrite zslice_tail_ext; [f_equal; lia| |lia]. rewrite Hxv. unfold nw in E. lia. }
+      rewrite Ein. reflexivity.
+  Qed.
+
+  (* ------------------------------------------------------------------------------------------ *)
+  (* dirrec *)
+
+  Lemma zslice_0_all {A} (l : list A) : zslice l 0 (zlen l) = l.
+  Proof. rewrite zslice_full by lia. reflexivity. Qed.
+
+  Lemma dirrec_steps_spec sc wl : forall ms i H, 0 <= i -> zlen H = wl + i ->
+    let L := dirrec_steps M pred1 sc wl ms i (H ++ zeros (zlen ms)) in
+    length L = length ms /\
+    forall (j : nat) m0, (j < length ms)%nat ->
+      nth j L dflt =
+        let x := enc sc [H ++ firstn j (map snd L)] in (x, pred1 (nth j ms m0) x).
+  Proof.
+    induction ms as [|m ms IH]; intros i H Hi HH L.
+    - subst L. split; [reflexivity|]. intros j m0 Hj. cbn in Hj. lia.
+    - subst L. cbn [dirrec_steps]. unfold dr_hi, dr_fb.
+      rewrite <- HH.
+      rewrite zslice_app_l by lia. rewrite zslice_0_all.
+      set (x0 := enc sc [H]). set (p0 := pred1 m x0).
+      rewrite zupd_app_zeros by (unfold zlen; cbn [length]; lia).
+      replace (zlen (m :: ms) - 1) with (zlen ms) by (unfold zlen; cbn [length]; lia).
+      assert (HH' : zlen (H ++ [p0]) = wl + (i + 1)) by (rewrite zlen_app; unfold zlen at 2; cbn; lia).
+      specialize (IH (i + 1) (H ++ [p0]) ltac:(lia) HH'). cbv zeta in IH.
+      set (L' := dirrec_steps M pred1 sc wl ms (i + 1) ((H ++ [p0]) ++ zeros (zlen ms))) in *.
+      destruct IH as [IHlen IHnth]. split; [cbn [length]; lia|].
+      intros j m0 Hj. destruct j as [|j].
+      + cbn [nth firstn]. cbv zeta. rewrite app_nil_r. reflexivity.
+      + cbn [nth length] in *. rewrite (IHnth j m0) by lia. cbv zeta. cbn [map snd firstn].
+        rewrite <- app_assoc. reflexivity.
+  Qed.
+
+  Lemma combine_map_same {A B C} (f : A -> B) (g : A -> C) l :
+    combine (map f l) (map g l) = map (fun x => (f x, g x)) l.
+  Proof. induction l as [|a t IH]; [reflexivity|]. cbn. rewrite IH. reflexivity. Qed.
+
+  (* what the regressor for step index i is trained on: the window followed by the observed
+     targets of the earlier requested steps *)
+  Definition dirrec_X (sc : scitype) (y : list Z) (wl nw : Z) (fh : list Z) (i : Z) : list xrow :=
+    map (fun r => enc sc [zslice y r (r + wl) ++ map (target_at y wl r) (firstn (Z.to_nat i) fh)])
+        (zrange 0 nw 1).
+
+  Lemma dirrec_flow sc y wl fh : 1 <= wl -> wf_fh fh ->
+    let n := zlen y in
+    let nw := n_windows n wl fh in
+    let idx := zrange 0 (zlen fh) 1 in
+    let ms := map (fun i => fit1 (dirrec_X sc y wl nw fh i) (train_t y wl nw (znth fh i))) idx in
+    if nw <=? 0 then dirrec_run M fit1 pred1 sc [y] wl fh = Err else
+    exists steps,
+      dirrec_run M fit1 pred1 sc [y] wl fh =
+        Ok (mkRun (map (fun i => Fit1 (dirrec_X sc y wl nw fh i) (train_t y wl nw (znth fh i))) idx)
+                  (combine idx (map fst steps)) (map snd steps)) /\
+      zlen steps = zlen fh /\
+      forall i m0, 0 <= i < zlen fh ->
+        nth (Z.to_nat i) steps dflt =
+          let x := enc sc [zslice y (n - wl) n ++ firstn (Z.to_nat i) (map snd steps)] in
+          (x, pred1 (nth (Z.to_nat i) ms m0) x).
+  Proof.
+    intros Hwl Hfh n nw idx ms. unfold dirrec_run.
+    assert (Hz : wf_zs [y]) by (split; [congruence|]; intros zv [<-|[]]; reflexivity).
+    rewrite (swt_fh_closed [y] wl fh Hz Hwl Hfh). cbv zeta. cbn [hd]. fold n. fold nw.
+    destruct (nw <=? 0) eqn:E; [reflexivity|].
+    pose proof (wf_fh_last fh Hfh) as Hfm.
+    rewrite combine_map_same, map_map. cbn [fst snd]. fold idx.
+    (* the fit inputs *)
+    assert (EX : forall i, 0 <= i < zlen fh ->
+      map (fun row => enc sc [zslice row 0 (dr_fit_hi wl i)])
+          (map (fun x => hd [] (window_at [y] wl x) ++ map (target_at y wl x) fh) (zrange 0 nw 1)) =
+      dirrec_X sc y wl nw fh i).
+    { intros i Hi. rewrite map_map. unfold dirrec_X. apply map_ext_zrange. intros r Hr.
+      unfold window_at. cbn [map hd]. unfold dr_fit_hi.
+      assert (Hl : zlen (zslice y r (r + wl)) = wl).
+      { rewrite zlen_zslice; unfold nw, n_windows, n in *; lia. }
+      rewrite zslice_app_mid by lia. rewrite Hl.
+      replace (zslice (zslice y r (r + wl)) 0 wl) with (zslice y r (r + wl))
+        by (rewrite <- Hl at 2; rewrite zslice_0_all; reflexivity).
+      do 3 f_equal. unfold zslice. cbn [Z.to_nat skipn]. rewrite firstn_map. f_equal. f_equal. lia. }
+    assert (ET : forall i, 0 <= i < zlen fh ->
+      col i (map (fun x => map (target_at y wl x) fh) (zrange 0 nw 1)) = train_t y wl nw (znth fh i)).
+    { intros i Hi. apply col_of_map. exact Hi. }
+    set (msR := map (fun i => fit1 _ _) idx).
+    assert (Ems : msR = ms).
+    { unfold msR, ms. apply map_ext_zrange. intros i Hi. rewrite EX, ET by lia. reflexivity. }
+    rewrite Ems.
+    set (Hw := last_window n wl y).
+    assert (HHw : zlen Hw = wl + 0).
+    { unfold Hw. rewrite last_window_eq. rewrite zlen_zslice; unfold n, nw, n_windows in *; lia. }
+    assert (Hmslen : zlen ms = zlen fh).
+    { unfold ms. rewrite zlen_map. unfold idx. rewrite zlen_zrange1. pose proof (zlen_nonneg fh). lia. }
+    pose proof (dirrec_steps_spec sc wl ms 0 Hw ltac:(lia) HHw) as Hs. cbv zeta in Hs.
+    rewrite Hmslen in Hs.
+    set (steps := dirrec_steps M pred1 sc wl ms 0 (Hw ++ zeros (zlen fh))) in *.
+    destruct Hs as [Hlen Hnth]. exists steps. split; [|split].
+    - apply f_equal. f_equal. apply map_ext_zrange. intros i Hi. rewrite EX, ET by lia. reflexivity.
+    - unfold zlen in *. lia.
+    - intros i m0 Hi. rewrite (Hnth (Z.to_nat i) m0) by (unfold zlen in *; lia). cbv zeta.
+      unfold Hw. rewrite last_window_eq. reflexivity.
+  Qed.
+
+  (* exogenous data is refused by dirrec *)
+  Lemma dirrec_rejects_exog sc y x xs wl fh : dirrec_run M fit1 pred1 sc (y :: x :: xs) wl fh = Err.
+  Proof. reflexivity. Qed.
 End StrategyProofs.
